@@ -181,6 +181,22 @@ func LoadLibrary(name string) *ast.KnowledgeLibrary {
 	panic("zzkb: no template " + name)
 }
 
+// StepLog returns "<op>:<rejected?>" for every step of the template's recipe (natively by re-running it; under gosym
+// from the heap image).
+func StepLog(name string) []string {
+	for _, ext := range []string{".grl", ".recipe.json"} {
+		p := TemplateDir() + "/" + name + ext
+		if _, err := os.Stat(p); err == nil {
+			_, log, err := RunTemplate(p)
+			if err != nil {
+				panic(err)
+			}
+			return log
+		}
+	}
+	panic("zzkb: no template " + name)
+}
+
 // RunTemplate builds the library of a template file with the real builder.
 func RunTemplate(path string) (*ast.KnowledgeLibrary, []string, error) {
 	src, err := os.ReadFile(path)
